@@ -198,7 +198,11 @@ class Run:
             elif op == 'pause':
                 self.routines[st[1]].pause()
             elif op == 'resume':
-                self.routines[st[1]].resume()
+                if len(st) > 2:
+                    self.routines[st[1]].resume(
+                        self.clocks[st[2]], st[3] if len(st) > 3 else None)
+                else:
+                    self.routines[st[1]].resume()
             elif op == 'stop':
                 self.routines[st[1]].stop()
             elif op == 'reset':
